@@ -322,3 +322,68 @@ def summarise(ctx, f, base):
     s["dedup"] = False
     s["by_evaluation"] = True
     return s
+
+
+def dedup_summary(ctx, f, base):
+    """Implicit-type methods (those that consult dedup_insert_type): the explicit / found / fresh decision evaluated on builders whose
+    types_global_values do or do not contain an identical declaration.  -> summary record with s["dedup"] filled in."""
+    params = [(p[0], p[1]) for p in f["sig"]["params"] if p[0] != "self"]
+    opt = [n for n, t in params if t.replace(" ", "").startswith("Option<")]
+    if not opt:
+        raise Anchor("no optional result id parameter")
+    ep = "result_id" if "result_id" in opt else opt[0]
+    s = summarise(ctx, f, base)            # explicit id present / absent on a module without earlier declarations
+    if s["sink"] != ("section", "types_global_values"):
+        raise Anchor("the declaration is stored in %s" % (s["sink"],))
+
+    def go(explicit, twin):
+        b = fresh_builder(ctx, "none")
+        tgv = b[2]["module"][2]["types_global_values"]
+        other = ("struct", "Instruction", {"class": ("struct", "Instruction", {"opcode": ("enum", "Op::TypeVoid", []), "opname": ("str", "TypeVoid")}),
+                                           "result_type": NONE, "result_id": ("some", 555), "operands": ("list", [("enum", "Operand::IdRef", [("elem", "UNRELATED", 0)])])})
+        tgv[1].append(other)
+        if twin is not None:
+            tgv[1].append(twin)
+        h = BH(ctx)
+        ev = progx.make(h, "Builder::" + f["name"])
+        env = {"self": b}
+        for name, ty in params:
+            env[name] = param_value(name, ty, "some" if (name != ep or explicit) else "none")
+        n0 = len(tgv[1])
+        try:
+            r = ev.run(f, env)
+        except SPanic as x:
+            raise Anchor("panics: %s" % x)
+        if isinstance(r, tuple) and r and r[0] == "ok":
+            r = r[1]
+        pushed = tgv[1][n0:]
+        pid = None
+        if pushed:
+            v = pushed[-1][2]["result_id"] if isinstance(pushed[-1], tuple) and pushed[-1][0] == "struct" else None
+            pid = "E" if v == ("some", ("param", ep)) else ("F" if isinstance(v, tuple) and v[0] == "some" and isinstance(v[1], int) and v[1] >= FRESH0 else repr(v))
+        ret = "E" if r == ("param", ep) else ("D" if r == 777 else ("F" if isinstance(r, int) and r >= FRESH0 else repr(r)))
+        nid = b[2]["next_id"]
+        return (len(pushed), pid, ret, (nid - FRESH0) if isinstance(nid, int) else None), (pushed[-1] if pushed else None)
+    # the declaration it builds (all other optional arguments present), then a twin with another id and an incomplete twin
+    (_, built) = go(False, None)
+    if built is None:
+        raise Anchor("nothing is appended when no identical declaration exists")
+    twin = copy.deepcopy(built)
+    twin[2]["result_id"] = ("some", 777)
+    table = {}
+    for explicit in (True, False):
+        for found in (True, False):
+            table[(explicit, found)] = go(explicit, copy.deepcopy(twin) if found else None)[0]
+    want = {(True, True): (1, "E", "E", 0), (True, False): (1, "E", "E", 0), (False, True): (0, None, "D", 0), (False, False): (1, "F", "F", 1)}
+    ok = table == want
+    why = "decision table %s" % {str(k): v for k, v in sorted(table.items())}
+    order_ok = True
+    if built[2]["operands"][1]:
+        part = copy.deepcopy(twin)
+        del part[2]["operands"][1][-1]
+        if go(False, part)[0] != want[(False, False)]:
+            order_ok = False
+    s["dedup"] = {"shape_ok": ok, "explicit_param": ep, "why": why, "text": "", "complete_before_lookup": order_ok, "by_evaluation": True}
+    s["rid"] = ("path", ep)
+    s["returns"] = "dedup"
+    return s
